@@ -111,6 +111,7 @@ type Engine struct {
 	WitnessWanted bool
 	ReportAll     bool
 	Progress      bool
+	RepoRoot      string
 	OnViolation   func(*Violation)
 	Observations  []string
 }
